@@ -156,6 +156,28 @@ def case_programs(empty_bodies=False):
                 src = DECLS + "parser { " + ("greedy " if greedy else "") + "case { " + " ".join(cls) + ' } ";"; }\n'
                 out.append({"name": f"case{'E' if empty_bodies else ''}/{k}{'g' if greedy else ''}", "src": src, "args": ["-feof-support", "-fyield-support"], "path": None})
             k += 1
+    # priority assignments over overlapping clause triples / quadruples (ties at the top with a lower clause besides, ties below the top)
+    overl = [['/a[a-z]/', '"ab"', '/a[bc]/'], ['/[a-z]+/', '"if"', '/i[a-z]/'], ['"ab"', '/ab?/', '/a[b-d]/', '/[ab]+/'], ['/\\w+/', '/[a-z]+/', '"in"']]
+    kk = 0
+    for pats3 in overl:
+        for prios in itertools.product((0, 1, 2), repeat=len(pats3)):
+            if len(pats3) == 4 and kk % 3:
+                kk += 1
+                continue
+            cls = [f"prio {pr} {pth} -> {{ n = [{i + 1}]; {tail} }}" for i, (pth, pr) in enumerate(zip(pats3, prios))]
+            src = DECLS + "parser { greedy case { " + " ".join(cls) + ' } ";"; }\n'
+            out.append({"name": f"case{'E' if empty_bodies else ''}/prio{kk}g", "src": src, "args": ["-feof-support", "-fyield-support"], "path": None})
+            kk += 1
+    # else sharing a clause with patterns (the clause is entered through a pattern or through the no-match route)
+    kk = 0
+    for a, b, c in [('"cd"', '"ab"', '"x"'), ('/c+d/', '"ab"', '/[xy]/'), ('"Cd"i', '/a*b/', '"cx"'), ('/\\d+/', '"ab"', '"a"')]:
+        for shape in ("{a}, else", "else, {a}", "{a}, {c}, else"):
+            for greedy in (False, True):
+                head = shape.format(a=a, c=c)
+                cls = [f"{b} -> {{ n = [1]; {tail} }}", f"{head} -> {{ n = [2]; {tail} }}"]
+                src = DECLS + "parser { " + ("greedy " if greedy else "") + "case { " + " ".join(cls) + ' } ";"; }\n'
+                out.append({"name": f"case{'E' if empty_bodies else ''}/else{kk}{'g' if greedy else ''}", "src": src, "args": ["-feof-support", "-fyield-support"], "path": None})
+                kk += 1
     return out
 
 
